@@ -35,7 +35,8 @@ CONSTANTS
     MaxParallel,   \* cfg.MaxParallelRequests (semaphore capacity, >= 1)
     Hedging,       \* cfg.SpeculativeRetryMultiplier > 0
     MaxHedges,     \* cfg.MaxSpeculativeHedges (0 = unlimited)
-    Kinds,         \* server behaviours offered per attempt, subset of {"ok","err","short","whole200"}
+    Kinds,         \* server behaviours offered to first attempts, subset of {"ok","err","short","whole200"}
+    HedgeKinds,    \* server behaviours offered to hedged duplicates
     Probes,        \* probe outcomes offered, subset of ProbeKinds
     Fixed,         \* see above
     Eager,         \* TRUE: only schedules in which the receive loop runs whenever it can
@@ -211,7 +212,8 @@ Acquire(a) ==
 \* semaphore.  In Eager schedules the server answers only while the receive
 \* loop waits on an empty channel and every free slot has been taken.
 Complete(a, kind) ==
-    /\ Budget /\ att[a] = "running" /\ pc # "done" /\ kind \in Kinds
+    /\ Budget /\ att[a] = "running" /\ pc # "done"
+    /\ kind \in (IF a[2] THEN HedgeKinds ELSE Kinds)
     /\ Eager => (pc = "recv" /\ chan = <<>> /\ ~CanAcquire(att))
     /\ LET d == DataOf(kind) IN
        /\ chan' = Append(chan, [c |-> a[1], res |-> d, h |-> a[2]])
@@ -369,7 +371,7 @@ Init ==
 
 Goroutines ==
     \/ \E a \in Attempts : Acquire(a)
-    \/ \E a \in Attempts, k \in Kinds : Complete(a, k)
+    \/ \E a \in Attempts, k \in Kinds \cup HedgeKinds : Complete(a, k)
 
 Caller ==
     \/ \E k \in ProbeKinds : Probe(k)
